@@ -2,7 +2,7 @@ SPECIFICATION Spec
 CONSTANTS
   Stacks <- StacksCore
   Outcomes <- Out1
-  TagOps <- TagOpsAll
+  TagOps <- TagOps4
   Times = {"1", "2"}
   MaxCalls = 10
   MaxTests = 2
